@@ -760,11 +760,16 @@ pub(crate) mod b {
     fn bounded_entry_points_total() {
         let alphabet = ['\u{301}', '\u{200d}', '\u{fe0f}', '\0', '\t', '\r', '\u{c}', '\u{7f}', '\u{ffff}', '😀', '一', '"', '\\', '{', '}', '#',
             '=', '-', '|', '+', '*', 'a', ' ', '\n', '⤹', '>', '.', '\'', ':', '_', '/'];
-        let mut inputs: Vec<String> = words(&alphabet, if thorough() { 4 } else { 3 });
+        let mut inputs: Vec<String> = words(&alphabet, 3);
+        if thorough() {
+            // four characters over the half of the alphabet that is not plain drawing, and two larger bundled diagrams
+            inputs.extend(words(&alphabet[..16], 4).into_iter().filter(|w| w.chars().count() == 4));
+        }
         for extra in ["# Legend:", "# Legend:\n", "x\n# Legend:  \n\n   \n", "# Legend:\na = {", "# Legend:\na = }\n", "x\n# Legend:\n= {}", "\"\\", "\"\\\"", "{a", "a}", "⤹>-+-+-+-+-\n   | | | |\n"] {
             inputs.push(extra.to_string());
         }
-        for file in ["merge.bob", "simple.bob", "circuits.bob"] {
+        let files: &[&str] = if thorough() { &["merge.bob", "simple.bob", "circuits.bob", "circles_generated.bob", "example.bob"] } else { &["merge.bob", "simple.bob", "circuits.bob"] };
+        for file in files {
             let path = format!("{}/test_data/{}", env!("CARGO_MANIFEST_DIR"), file);
             inputs.push(std::fs::read_to_string(&path).expect("bundled diagram"));
         }
@@ -776,7 +781,7 @@ pub(crate) mod b {
         std::panic::set_hook(Box::new(|_| {}));
         std::thread::spawn(move || {
             for (k, text) in worker_inputs.iter().enumerate() {
-                let all = text.chars().count() <= 2 || k + 16 > worker_inputs.len();
+                let all = text.chars().count() <= 2 || k + 20 > worker_inputs.len();
                 let r = std::panic::catch_unwind(|| {
                     let mut len = crate::to_svg_string_compressed(text).len();
                     if all {
@@ -799,7 +804,7 @@ pub(crate) mod b {
         let mut next = 0usize;
         while next < total {
             // the slowest legitimate input (a bundled diagram through five entry points) takes a few seconds
-            match rx.recv_timeout(std::time::Duration::from_secs(120)) {
+            match rx.recv_timeout(std::time::Duration::from_secs(if thorough() { 900 } else { 120 })) {
                 Ok((k, true)) => {
                     next = k + 1;
                     n += 1;
@@ -811,7 +816,7 @@ pub(crate) mod b {
                 }
                 Err(_) => {
                     let _ = std::panic::take_hook();
-                    println!("BOUNDED-WITNESS conversion of {:?} did not return within 120 s", shared[next].chars().take(80).collect::<String>());
+                    println!("BOUNDED-WITNESS conversion of {:?} did not return within the watchdog limit (120 s quick, 900 s thorough)", shared[next].chars().take(80).collect::<String>());
                     panic!("conversion terminates");
                 }
             }
